@@ -105,6 +105,11 @@ func NewDispatcher(option DispatcherOption) *dispatcher {
 	if size < 1024 {
 		zoneSize = 8
 	}
+	// 如果缓存数量比zone的数量还少，则zone的数量调整为缓存数量，
+	// 避免每个lru的大小为0（lru大小为0表示不限制数量）
+	if size < zoneSize {
+		zoneSize = size
+	}
 
 	// 按zoneSize与size创建二维缓存，存放的是LRU缓存实例
 	lruSize := size / zoneSize
